@@ -91,7 +91,7 @@ def rule_contracts(prop, config="all", floor_key=None):
         if len(r.samples) < 3 and comp:
             r.samples.append({"body": u, "source": src, "transitions": [e.fmt(sorted(e.facts)[:3]) for e in comp[:4]]})
     # contract entries whose body vanished
-    if prop is None:
+    if prop is None and config == "all":
         for u in C.load_all():
             if u not in run.I.edges:
                 r.errors.append("contract for %s matches no body in this configuration" % u)
